@@ -513,13 +513,13 @@ class MultilevelSolver:
                 # history is desired
 
                 if residuals is not None:
-                    residuals[:] = [np.linalg.norm(b - A @ x)]
+                    residuals[:] = [np.linalg.norm(np.ravel(b) - A @ np.ravel(x))]
 
                     def callback_wrapper(x):
                         if np.isscalar(x):
                             residuals.append(x)
                         else:
-                            residuals.append(np.linalg.norm(b - A @ x))
+                            residuals.append(np.linalg.norm(np.ravel(b) - A @ np.ravel(x)))
                         if callback is not None:
                             callback(x)
                 else:
